@@ -29,6 +29,10 @@ struct Prog
     int send_stride = 1;       // sends are issued in a scattered order
     int scopes = 1;            // 1 or 2 sequential enable_polling scopes
     bool wait_in_flight = true;
+    // burst flavour: a few tasks post hundreds..thousands of small requests each without yielding in between, so that
+    // requests pile up between two drains of the polling queues (their capacity limits become reachable)
+    bool burst = false;
+    int posters = 1;
 };
 struct Case
 {
@@ -59,6 +63,18 @@ static Case decode(tape_t const& tape)
         p.send_stride = t.pick({1, 3, 7, 37});
         p.scopes = 1 + static_cast<int>(t.below(2));
         p.wait_in_flight = t.chance(3, 4);
+        p.burst = t.chance(1, 5);
+        // (yield_while / suspend_resume block the task that starts the operation until the request completed: a task that posts
+        // a receive before the matching send would wait for itself; bursts are for the non-blocking completion methods)
+        if (p.burst && ((p.mode >> 3) & 3) < 2) p.mode |= 0x18;
+        if (p.burst)
+        {
+            int k2 = t.pick({400, 1500, 3000});
+            p.pairs.clear();
+            for (int j = 0; j < k2; ++j) p.pairs.push_back(Pair{1, true});
+            p.posters = 1 + static_cast<int>(t.below(static_cast<std::uint32_t>(p.workers)));
+            p.scopes = 1;
+        }
         c.progs.push_back(std::move(p));
     }
     return c;
@@ -82,7 +98,7 @@ static std::string describe(tape_t const& tape)
         for (auto const& pr : p.pairs) big = std::max(big, sizes[pr.size_idx]);
         os << (i ? ", " : "") << "{\"mode\": " << p.mode << ", \"method\": \"" << method_name(p.mode) << "\", \"workers\": " << p.workers << ", \"mpi_pool\": " << (p.pool ? "true" : "false")
            << ", \"polling_size\": " << p.polling_size << ", \"pairs\": " << p.pairs.size() << ", \"largest_message\": " << big << ", \"send_stride\": " << p.send_stride
-           << ", \"polling_scopes\": " << p.scopes << ", \"wait_in_flight\": " << (p.wait_in_flight ? "true" : "false") << "}";
+           << ", \"polling_scopes\": " << p.scopes << ", \"wait_in_flight\": " << (p.wait_in_flight ? "true" : "false") << ", \"burst_posters\": " << (p.burst ? p.posters : 0) << "}";
     }
     os << "]}";
     return os.str();
@@ -177,7 +193,35 @@ static std::string run_program(Prog const& p, int index, Quiescence& q)
                 [r, &send_done](auto&&...) { r->send_signals.fetch_add(1); send_done.fetch_add(1); }));
         };
         std::size_t m = hi - lo;
-        for (std::size_t i = lo; i < hi; ++i) if (p.pairs[i].recv_first) post_recv(i);
+        if (p.burst)
+        {
+            // each poster task issues its slice of receives, then the matching sends, inline and without yielding
+            for (int w = 0; w < p.posters; ++w)
+            {
+                ex::execute(sched, [&, w] {
+                    for (std::size_t i = lo + static_cast<std::size_t>(w); i < hi; i += static_cast<std::size_t>(p.posters))
+                    {
+                        PairRt* r = prs[i].get();
+                        int cnt = static_cast<int>(r->rbuf.size());
+                        ex::start_detached(ex::then(mpi::transform_mpi(ex::just(static_cast<void*>(r->rbuf.data()), cnt, MPI_BYTE, 0, static_cast<int>(i), MPI_COMM_WORLD), MPI_Irecv),
+                            [r, &recv_done](auto&&...) {
+                                if (r->rbuf != r->sbuf) r->bad_payload.store(1);
+                                r->recv_signals.fetch_add(1);
+                                recv_done.fetch_add(1);
+                            }));
+                    }
+                    for (std::size_t i = lo + static_cast<std::size_t>(w); i < hi; i += static_cast<std::size_t>(p.posters))
+                    {
+                        PairRt* r = prs[i].get();
+                        int cnt = static_cast<int>(r->sbuf.size());
+                        ex::start_detached(ex::then(mpi::transform_mpi(ex::just(static_cast<void const*>(r->sbuf.data()), cnt, MPI_BYTE, 0, static_cast<int>(i), MPI_COMM_WORLD), MPI_Isend),
+                            [r, &send_done](auto&&...) { r->send_signals.fetch_add(1); send_done.fetch_add(1); }));
+                    }
+                });
+            }
+            m = 0;    // nothing left for the one-task-per-request path below
+        }
+        for (std::size_t i = lo; i < hi && m; ++i) if (p.pairs[i].recv_first) post_recv(i);
         // scattered send order
         std::vector<bool> sent(m, false);
         std::size_t pos = 0;
@@ -188,7 +232,7 @@ static std::string run_program(Prog const& p, int index, Quiescence& q)
             sent[pos] = true;
             post_send(lo + pos);
         }
-        for (std::size_t i = lo; i < hi; ++i) if (!p.pairs[i].recv_first) post_recv(i);
+        for (std::size_t i = lo; i < hi && m; ++i) if (!p.pairs[i].recv_first) post_recv(i);
         if (p.wait_in_flight || sc + 1 == p.scopes || true)
         {
             // pika::wait() must not return while requests are in flight
@@ -244,6 +288,7 @@ static Outcome run(tape_t const& tape)
         nt |= c.progs[i].pairs.size() >= 8 && big >= 70000 && c.progs[i].mode != 30;
         out.tags.push_back(std::string("method:") + method_name(c.progs[i].mode));
         if (c.progs[i].pairs.size() > 32) out.tags.push_back("has:>32_requests_in_flight");
+        if (c.progs[i].burst) out.tags.push_back("has:burst_of_requests_from_one_task");
     }
     MPI_Finalize();
     out.counters["pairs"] = pairs;
